@@ -1,12 +1,114 @@
 /-
-  Props.C14 — the theorems that decide property C14 (see DESIGN.md §7).
+  Props.C14 — identifiers, raw strings and JSON literals denote exactly the
+  written name/value (DESIGN.md §7, C14).  Proved here: the raw-string round
+  trip, the delimiter scan on escaped content, the backtick un-escaping, and
+  that the REGENERATED bit masks denote exactly [A-Za-z_] and [A-Za-z0-9_] for
+  every code point.  The JSON string codec round trip and multi-byte content
+  are validated by the `ident` / `jsoncodec` streams (see DESIGN.md).
 -/
 import Props.Tables
+import Proofs.LexerRoundTrip
 namespace Jmes.Props
-open Jmes
+open Jmes Jmes.Lexer
 
 theorem C14_generated_table_ok : TableOK Generated.table = true := generated_table_ok
 theorem C14_generated_sigs_ok : SigsOK Generated.functionTable Spec.functionTable = true := generated_sigs_ok
 theorem C14_generated_lex_ok : LexTablesOK Model.lexTables Spec.lexTables = true := generated_lex_ok
+
+/-- A raw string literal (with ' written as \') denotes exactly the string,
+    backslashes included: scanning the spelling followed by the closing quote
+    yields the string and leaves the rest of the expression. -/
+theorem C14_raw_string_round_trip (s rest : Bytes) (ha : Ascii s) (hok : RawOK s) :
+    rawBody (rawSpell s ++ 0x27 :: rest).length (rawSpell s ++ 0x27 :: rest) = some (s, rest) :=
+  rawBody_rawSpell' s rest ha hok
+
+/-- Quoted identifiers and literals: the delimiter scan returns exactly the
+    delimited text when it is made of units (plain bytes, or a backslash and the
+    byte it escapes) — which is what JSON string escaping and the \` spelling produce. -/
+theorem C14_delimited_text (endc : UInt8) (he : endc < 0x80) (hne : endc ≠ 0x5C) (body rest : Bytes)
+    (hu : Units endc body) :
+    consumeUntil endc.toNat (body ++ endc :: rest).length (body ++ endc :: rest) = some (body, rest) :=
+  consumeUntil_units endc he hne body hu rest _ (by simp)
+
+/-- The backtick literal: replacing \` by ` recovers the JSON text, whatever it is. -/
+theorem C14_literal_unescape (jsonText : Bytes) : unescapeBacktick (btSpell jsonText) = jsonText :=
+  unescapeBacktick_btSpell jsonText
+
+def isAlphaUnderscore (r : Nat) : Bool := (0x41 ≤ r && r ≤ 0x5A) || (0x61 ≤ r && r ≤ 0x7A) || r == 0x5F
+def isAlnumUnderscore (r : Nat) : Bool := isAlphaUnderscore r || (0x30 ≤ r && r ≤ 0x39)
+
+theorem shl1_big (k : Nat) (h : 64 ≤ k) : shl1 k = 0 := by unfold shl1; simp; omega
+
+/-- Outside 64..127 no code point (nor end of input, which `uint64(r)` turns
+    into 2^64−1) passes the identifier-start test, whatever the mask: Go's shift
+    semantics make `1 << k` vanish for k ≥ 64. -/
+theorem identStart_range (bits r : Nat) (hr64 : r < 2 ^ 64) (h : identStart bits r = true) : 64 ≤ r ∧ r < 128 := by
+  unfold identStart at h
+  by_cases hr : 64 ≤ r ∧ r < 128
+  · exact hr
+  · have : shl1 (subWrap64 r) = 0 := by
+      apply shl1_big
+      unfold subWrap64
+      by_cases h1 : r < 64
+      · have : r + 2 ^ 64 - 64 < 2 ^ 64 := by omega
+        rw [Nat.mod_eq_of_lt this]; omega
+      · have h2 : 128 ≤ r := by omega
+        have e : r + 2 ^ 64 - 64 = (r - 64) + 2 ^ 64 := by omega
+        have h4 : r - 64 < 2 ^ 64 := by omega
+        rw [e, Nat.add_mod_right, Nat.mod_eq_of_lt h4]; omega
+    rw [this] at h
+    simp at h
+
+/-- The REGENERATED start mask denotes exactly [A-Za-z_] — on every rune and on end of input. -/
+theorem C14_identifier_start (r : Nat) (hr64 : r < 2 ^ 64) :
+    identStart Generated.identifierStartBits r = isAlphaUnderscore r := by
+  by_cases hr : 64 ≤ r ∧ r < 128
+  · have : ∀ k, k < 64 → identStart Generated.identifierStartBits (64 + k) = isAlphaUnderscore (64 + k) := by decide +kernel
+    have := this (r - 64) (by omega)
+    rwa [show 64 + (r - 64) = r by omega] at this
+  · have h1 : identStart Generated.identifierStartBits r = false := by
+      cases h : identStart Generated.identifierStartBits r
+      · rfl
+      · exact absurd (identStart_range _ r hr64 h) hr
+    rw [h1]
+    unfold isAlphaUnderscore
+    symm
+    simp only [Bool.or_eq_false_iff, Bool.and_eq_false_iff, decide_eq_false_iff_not, beq_eq_false_iff_ne]
+    omega
+
+/-- The REGENERATED trailing mask denotes exactly [A-Za-z0-9_]: the scanner
+    continues on exactly those runes (and never indexes the table out of range). -/
+theorem C14_identifier_trailing (r : Nat) :
+    identTrail Generated.identifierTrailingBits r = .ok (isAlnumUnderscore r) := by
+  by_cases hr : r < 128
+  · have : ∀ k, k < 128 → (match identTrail Generated.identifierTrailingBits k with
+        | .ok bv => bv == isAlnumUnderscore k
+        | _ => false) = true := by decide +kernel
+    have := this r hr
+    cases h : identTrail Generated.identifierTrailingBits r with
+    | ok bv => rw [h] at this; simp at this; rw [this]
+    | err e => rw [h] at this; simp at this
+    | panic p => rw [h] at this; simp at this
+  · have : identTrail Generated.identifierTrailingBits r = .ok false := by
+      unfold identTrail; simp; omega
+    rw [this]
+    congr 1
+    unfold isAlnumUnderscore isAlphaUnderscore
+    symm
+    simp only [Bool.or_eq_false_iff, Bool.and_eq_false_iff, decide_eq_false_iff_not, beq_eq_false_iff_ne]
+    omega
+
+/-- White space between tokens is skipped: the four white-space characters of
+    the language, and only they, produce no token. -/
+theorem C14_white_space (r : Nat) : Generated.whiteSpace.contains r = (r == 0x20 || r == 0x09 || r == 0x0A || r == 0x0D) := by
+  simp only [Generated.whiteSpace, List.contains_cons, List.contains_nil, Bool.or_false, Bool.or_assoc]
+
+/-! Non-vacuity. -/
+example : RawOK [0x61, 0x5C, 0x62, 0x27, 0x63] ∧ Ascii [0x61, 0x5C, 0x62, 0x27, 0x63] := by
+  refine ⟨by simp [RawOK], ?_⟩
+  intro c hc; simp at hc; rcases hc with rfl | rfl | rfl | rfl | rfl <;> decide
+example : rawSpell [0x61, 0x5C, 0x62, 0x27, 0x63] = [0x61, 0x5C, 0x62, 0x5C, 0x27, 0x63] := by decide
+example : Units 0x22 [0x61, 0x5C, 0x22, 0x5C, 0x5C] :=
+  .plain _ _ (by decide) (by decide) (by decide) (.esc _ _ (by decide) (.esc _ _ (by decide) .nil))
 
 end Jmes.Props
